@@ -131,7 +131,21 @@ def anchor_codes():
     fs = [BaseParser.resolve_forward_refs, BaseParser.apply_for.__func__, FunctionParser.resolve_forward_refs,
           LogicalType.resolve_forward_refs, LogicalType.register_forward_refs, Rule.resolve_forward_refs.__func__,
           register_forward_ref, resolve_forward_type, ParserField.resolve_forward_refs,
-          TypeRegistry.register, TypeRegistry.resolve, BaseParser.resolve_parser.__func__]
+          TypeRegistry.register, TypeRegistry.resolve, BaseParser.resolve_parser.__func__,
+          getattr(BaseParser, "_resolve_forward_refs", None), getattr(BaseParser, "resolve_forward_types", None),
+          getattr(FunctionParser, "resolve_forward_types", None)]
+    return _codes_of(fs)
+
+
+def reader_codes():
+    """Readers of the lazily rewritten state: counted as anchors for the targeted policies, but too hot for
+    bytecode events."""
+    from utype.parser.field import ParserField
+    from utype.utils.transform import TypeTransformer
+    return _codes_of([ParserField.parse_value, TypeTransformer.__call__, TypeTransformer.apply])
+
+
+def _codes_of(fs):
     codes = set()
     for f in fs:
         c = getattr(f, "__code__", None)
@@ -185,7 +199,7 @@ class Policy:
         self.kind = spec["kind"]
         self.rng = random.Random(spec.get("seed", 0))
         self.n = nthreads
-        if self.kind == "pct":
+        if self.kind in ("pct", "apct"):
             order = list(range(nthreads))
             self.rng.shuffle(order)
             self.prio = {t: nthreads - i + 100 for i, t in enumerate(order)}
@@ -206,7 +220,7 @@ class Policy:
                     if t in runnable:
                         return t
             return runnable[0]
-        if k == "pct":
+        if k in ("pct", "apct"):
             return max(runnable, key=lambda t: self.prio[t])
         if k == "segments":
             while self.si < len(self.segs) and self.segs[self.si][0] not in runnable:
@@ -228,7 +242,7 @@ class Policy:
             return self.first(runnable)
         if self.kind == "sequential":
             return self.first(runnable)
-        if self.kind == "pct":
+        if self.kind in ("pct", "apct"):
             return max(runnable, key=lambda t: self.prio[t])
         if self.kind == "quantum":
             later = [t for t in runnable if t > tid]
@@ -260,6 +274,17 @@ class Policy:
                 later = [t for t in runnable if t > tid]
                 return (later or runnable)[0]
             return tid
+        if k == "apct":
+            # PCT whose scheduling points are the anchor points only: far fewer points, so a bug of depth d is hit
+            # with a much higher probability (1/(n*k^(d-1)), k = number of scheduling points)
+            if not in_anchor:
+                return tid
+            self.apoints = getattr(self, "apoints", 0) + 1
+            while self.change and self.apoints >= self.change[0]:
+                self.change.pop(0)
+                self.low -= 1
+                self.prio[tid] = self.low
+            return max(runnable, key=lambda t: self.prio[t])
         if k == "pct":
             while self.change and vstep >= self.change[0]:
                 self.change.pop(0)
@@ -292,6 +317,8 @@ class Scheduler:
         self.policy = Policy(policy_spec, nthreads)
         self.budget = budget
         self.anchors = anchors if anchors is not None else anchor_codes()
+        self.bytecode_codes = set(self.anchors)
+        self.anchors = set(self.anchors) | reader_codes()
         self.sems = [threading.Semaphore(0) for _ in range(nthreads)]
         self.done_evt = threading.Event()
         self.alive = set(range(nthreads))
@@ -455,7 +482,7 @@ class Scheduler:
 
         ths = [threading.Thread(target=body, args=(t,), name=f"sim-{t}", daemon=True) for t in range(self.n)]
         if self.bytecode:
-            self.bytecode = bytecode_events(self.anchors, True)
+            self.bytecode = bytecode_events(self.bytecode_codes, True)
         CURRENT[0] = self
         for t in ths:
             t.start()
@@ -471,7 +498,7 @@ class Scheduler:
             t.join(timeout=10)
         CURRENT[0] = None
         if self.bytecode:
-            bytecode_events(self.anchors, False)
+            bytecode_events(self.bytecode_codes, False)
         return results
 
     def interleaving_hash(self):
